@@ -75,6 +75,36 @@ def stepOp (m : M) (op impl : String) : M × String × String :=
       | some recs =>
         ({ m with stream := some recs, cuts := sorted },
           s!"ok ch={recs.length} msgs={msgCount recs} maxid={maxId recs} crcok=true", "ok")
+  | ["interrupt", pm] =>
+    -- a restore interrupted in the install pass, store reopened, retried: must converge to the clean restore
+    match C09D.num pm, m.stream with
+    | none, _ => (m, "bad-op", "ok")
+    | some p, none => (m, if p > 1000 then "bad-op" else "no-stream", "ok")
+    | some p, some recs =>
+      if p > 1000 then (m, "bad-op", "ok") else
+      match importStream [] recs with
+      | none => (m, "-", "ok")
+      | some t' =>
+        let first := if implRes.startsWith "int=err" then "int=err" else "int=ok"
+        let out := s!"{first} retry=ok ch={recs.length} msgs={msgCount recs} maxid={maxId recs} # " ++ C09D.dump t'
+        let verdict :=
+          if !(implRes.startsWith "int=err retry=ok " ∨ implRes.startsWith "int=ok retry=ok ") then "viol:retry-after-interrupted-restore-failed"
+          else match implDump with
+            | some d =>
+              let implRows := ((d.splitOn ";").filterMap C09D.parseEntry).filter (fun e => match e.1 with | .row _ _ => true | _ => false)
+              let wantRows := t'.filter (fun e => match e.1 with | .row _ _ => true | _ => false)
+              if wantRows.any (fun e => !implRows.contains e) then "viol:retry-loses-committed-rows"
+              else if implRows.any (fun e => !wantRows.contains e) then "viol:restored-row-not-committed-in-source"
+              else if d ≠ C09D.dump t' then "viol:retry-does-not-converge"
+              else "ok"
+            | none => "viol:no-dump"
+        (m, out, verdict)
+  | ["intsweep", _] =>
+    if m.stream.isNone then (m, "no-stream", "ok") else
+    let v := match natOf impl "n", natOf impl "retryok", natOf impl "eqclean" with
+      | some n, some r, some e => if r ≠ n then "viol:retry-after-interrupted-restore-failed" else if e ≠ n then "viol:retry-does-not-converge" else "ok"
+      | _, _, _ => "viol:sweep-output-malformed"
+    (m, "-", v)
   | [kind, mode] =>
     if kind == "import" ∨ kind == "retry" then
       if mode ≠ "reader" ∧ mode ≠ "bytes" then (m, "bad-op", "ok") else
@@ -131,6 +161,15 @@ def stepOp (m : M) (op impl : String) : M × String × String :=
       | some _, some 0 => if mode == "bytes" then "viol:partial-apply-bytes-path-crcfixed" else "viol:partial-apply"
       | some _, some _ => if mode == "bytes" then "viol:panic-bytes-path-crcfixed" else "viol:panic"
       | _, _ => "viol:sweep-output-malformed"
+    (m, "-", v)
+  | ["xforeign", _, _, _] =>
+    -- a checksum-valid stream carrying a foreign-slot key must be rejected and leave the target untouched
+    let v :=
+      if impl.startsWith "rejected same=true" then "ok"
+      else if impl.startsWith "rejected same=false" then "viol:meta-partial-apply"
+      else if impl.startsWith "accepted" then "viol:meta-foreign-slot-key-accepted"
+      else if impl.startsWith "guard:" ∨ impl == "no-stream" ∨ impl == "bad-op" then "ok"
+      else "viol:meta-foreign-output-malformed"
     (m, "-", v)
   | ["xsweepfix", _, _] =>
     let v := match natOf impl "partial" with
